@@ -174,7 +174,7 @@ def straddle_workload(res, ctx, rng):
     (every split of the marker's bytes), counted from the start of the scan and from the start of the file."""
     recs = gen.gen_records(rng, 6, first_nonzero=False)
     entries = [(11, 100, b'proc0', b''), (12, 200, b'proc1', b'junk')]
-    blocks_sizes = ctx.pick((4096, 8192), (4096, 8192, 65536))
+    blocks_sizes = ctx.pick((4096, 8192, 65536), (512, 1024, 4096, 8192, 16384, 32768, 65536, 131072, 1 << 20))
     probe = wire.V3Spec(entries=entries, chunks=[recs[:3], recs[3:]], header_kw={'numer': 125, 'denom': 3, 'timestamp': 77,
                         'wall_secs': 1600000000, 'wall_usecs': 5, 'tz_minuteswest': 60, 'tz_dst': 0, 'flags': 1}).build()
     base_off = probe.find(wire.STACKSHOT_END)          # where the stackshot scan starts (header end)
